@@ -408,7 +408,12 @@ func c03Run(c *Ctx) {
 		}
 	}
 	if c.Thorough() {
-		if !runEach(len(alpha), 3) {
+		// length 3 over the first half of the alphabet (every kind of item occurs in it), all headers
+		n3 := reduced + 22
+		if n3 > len(alpha) {
+			n3 = len(alpha)
+		}
+		if !runEach(n3, 3) {
 			return
 		}
 		if !runFor(freduced, 3) {
@@ -431,7 +436,7 @@ func init() {
 			a, r := c03Alphabet(false)
 			fa, fr := c03Alphabet(true)
 			if tier == "thorough" {
-				return map[string]any{"array_len": 5, "body_items": 3, "each_alphabet": len(a), "for_alphabet": len(fa), "for_len3_alphabet": fr}
+				return map[string]any{"array_len": 5, "body_items": 3, "each_alphabet": len(a), "each_len3_alphabet": r + 22, "for_alphabet": len(fa), "for_len3_alphabet": fr}
 			}
 			return map[string]any{"array_len": 4, "body_items": 3, "each_alphabet": len(a), "each_len3_alphabet": r, "for_alphabet": len(fa), "for_len2_alphabet": fr}
 		},
